@@ -377,8 +377,10 @@ class RemoveFront(MaskMixin, CartesianProductStrategy):
     merge: when the class tracks the same letter twice, the children track it once
            (two parent statistics mapped onto one child statistic, in a product)."""
 
-    def __init__(self, mask=None, lazy=False, split=False, merge=False, split3=False):
-        super().__init__(ignore_parent=True, inferrable=False, possibly_empty=False, workable=True)
+    def __init__(self, mask=None, lazy=False, split=False, merge=False, split3=False, pe=False):
+        # pe: the product declares possibly_empty=True (always truthful; no factor is ever empty here)
+        super().__init__(ignore_parent=True, inferrable=False, possibly_empty=pe, workable=True)
+        self.pe = pe
         self.mask = mask
         self.lazy = lazy
         self.split = split
@@ -388,7 +390,7 @@ class RemoveFront(MaskMixin, CartesianProductStrategy):
         self.split3 = split3
 
     def _args_repr(self):
-        return ",".join(x for x, on in (("split", self.split), ("merge", self.merge), ("split3", self.split3)) if on)
+        return ",".join(x for x, on in (("split", self.split), ("merge", self.merge), ("split3", self.split3), ("pe", self.pe)) if on)
 
     @staticmethod
     def safe_index(c):
@@ -453,11 +455,12 @@ class RemoveFront(MaskMixin, CartesianProductStrategy):
         d["split"] = self.split
         d["merge"] = self.merge
         d["split3"] = self.split3
+        d["pe"] = self.pe
         return d
 
     @classmethod
     def from_dict(cls, d):
-        return cls(d.get("mask"), d.get("lazy", False), d.get("split", False), d.get("merge", False), d.get("split3", False))
+        return cls(d.get("mask"), d.get("lazy", False), d.get("split", False), d.get("merge", False), d.get("split3", False), d.get("pe", False))
 
 
 class SplitZeros(MaskMixin, CartesianProductStrategy):
@@ -923,12 +926,20 @@ class FiatVerified(VerificationStrategy):
     """A seeded set of classes declared verified - truthfully: terms, objects and
     sampler come from brute force.  Optionally supplies a pack (C19)."""
 
-    def __init__(self, keys=(), salt=0, pct=0, pack_spec=None, ignore_parent=False):
+    def __init__(self, keys=(), salt=0, pct=0, pack_spec=None, ignore_parent=False, pack_pct=100):
         super().__init__(ignore_parent=ignore_parent)
         self.keys = frozenset(tuple(k) if not isinstance(k, frozenset) else k for k in keys)
         self.salt = salt
         self.pct = pct
         self.pack_spec = pack_spec
+        # pack_pct < 100: the strategy offers its pack for a seeded subset of the classes it verifies only
+        # (InvalidOperationError for the others, which are then counted directly and never expanded)
+        self.pack_pct = pack_pct
+
+    def offers_pack(self, comb_class):
+        if self.pack_spec is None:
+            return False
+        return self.pack_pct >= 100 or _h(comb_class.key(), self.salt, "pack") % 100 < self.pack_pct
 
     def verified(self, comb_class):
         if comb_class.just_prefix or comb_class.is_empty() or comb_class.marks > 1:
@@ -952,7 +963,7 @@ class FiatVerified(VerificationStrategy):
         return CURRENT_RNG.choice(objs)
 
     def pack(self, comb_class):
-        if self.pack_spec is None:
+        if not self.offers_pack(comb_class):
             raise InvalidOperationError("no pack for this fiat verification")
         return make_pack(self.pack_spec)
 
@@ -960,19 +971,20 @@ class FiatVerified(VerificationStrategy):
         return "fiat verified"
 
     def __repr__(self):
-        return f"FiatVerified(n={len(self.keys)},salt={self.salt},pct={self.pct},pack={'y' if self.pack_spec else 'n'})"
+        pk = "n" if not self.pack_spec else ("y" if self.pack_pct >= 100 else f"{self.pack_pct}%")
+        return f"FiatVerified(n={len(self.keys)},salt={self.salt},pct={self.pct},pack={pk})"
 
     def __str__(self):
         return repr(self)
 
     def to_jsonable(self):
         d = super().to_jsonable()
-        d.update(keys=sorted(self.keys), salt=self.salt, pct=self.pct, pack_spec=self.pack_spec)
+        d.update(keys=sorted(self.keys), salt=self.salt, pct=self.pct, pack_spec=self.pack_spec, pack_pct=self.pack_pct)
         return d
 
     @classmethod
     def from_dict(cls, d):
-        return cls(d["keys"], d["salt"], d["pct"], d["pack_spec"], d.get("ignore_parent", False))
+        return cls(d["keys"], d["salt"], d["pct"], d["pack_spec"], d.get("ignore_parent", False), d.get("pack_pct", 100))
 
 
 # ---------------------------------------------------------------------------
@@ -1093,7 +1105,7 @@ _STRATS = {
     "Expand": lambda s: Expand(s.get("d", 1), _mask(s), s.get("lazy", False), s.get("drop", False), s.get("atom_last", False)),
     "SplitZeros": lambda s: SplitZeros(_mask(s), s.get("lazy", False)),
     "ForgetMark": lambda s: ForgetMark(_mask(s), s.get("lazy", False)),
-    "RemoveFront": lambda s: RemoveFront(_mask(s), s.get("lazy", False), s.get("split", False), s.get("merge", False), s.get("split3", False)),
+    "RemoveFront": lambda s: RemoveFront(_mask(s), s.get("lazy", False), s.get("split", False), s.get("merge", False), s.get("split3", False), s.get("pe", False)),
     "ReducePatterns": lambda s: ReducePatterns(_mask(s), s.get("lazy", False), two_way=s.get("two_way", True), ignore_parent=s.get("ignore_parent", True), reversible=s.get("reversible", True), empty_first=s.get("empty_first", False)),
     "DropDeadStatistic": lambda s: DropDeadStatistic(_mask(s), s.get("lazy", False), two_way=s.get("two_way", True), ignore_parent=s.get("ignore_parent", True), reversible=s.get("reversible", True), empty_first=s.get("empty_first", False)),
     "MergeDuplicateStatistics": lambda s: MergeDuplicateStatistics(_mask(s), s.get("lazy", False), two_way=s.get("two_way", True), ignore_parent=s.get("ignore_parent", True), reversible=s.get("reversible", True), empty_first=s.get("empty_first", False)),
@@ -1104,7 +1116,7 @@ _STRATS = {
     "AtomTwinFactory": lambda s: AtomTwinFactory(s.get("foreign", True), s.get("foreign_first", False)),
     "AtomStrategy": lambda s: AtomStrategy(),
     "FiatVerified": lambda s: FiatVerified(
-        [_tup(k) for k in s.get("keys", [])], s.get("salt", 0), s.get("pct", 0), s.get("pack_spec"), s.get("ignore_parent", False)
+        [_tup(k) for k in s.get("keys", [])], s.get("salt", 0), s.get("pct", 0), s.get("pack_spec"), s.get("ignore_parent", False), s.get("pack_pct", 100)
     ),
     "ExpandFactory": lambda s: ExpandFactory(tuple(s.get("ds", (1,))), s.get("as_rules", False), s.get("foreign"), s.get("dup", False), _mask(s), s.get("foreign_first", False), s.get("with_remove_front", False)),
 }
